@@ -290,3 +290,7 @@ mod tests {
         assert_eq!(result.leap_indicator, None);
     }
 }
+
+#[cfg(all(test, feature = "pendulum_project_ntpd_rs_verif"))]
+#[path = "../../../../../verif/harness/ntp_proto/algorithm_kalman_combiner.rs"]
+mod verif_algorithm_kalman_combiner;
